@@ -164,7 +164,7 @@ class PathEnum:
         if k == 'call':
             v = self.call(store, t)
             if t['to'] is None:
-                self.paths.append((list(atoms), T('panic', cres(t))))
+                self.paths.append((list(atoms), T('panic', cdef(t) or cres(t))))
                 return
             self.write(store, t['dest'], v)
             return self._dfs(t['to'], store, atoms, onpath)
@@ -194,7 +194,8 @@ class PathEnum:
             return fold(T('bin', 'Ne', deref(args[0]), deref(args[1])))
         if re.search(r'clone::Clone::clone$|ops::Deref::deref$', d) and args:
             return deref(args[0])
-        return T('call', cres(t), args)
+        res = t['callee'].get('resolved') or ''
+        return T('call', res if res in self.F.fns else (d or res), args)
 
 
 def deref(v):
@@ -358,3 +359,35 @@ def show(t, depth=0):
     if k == 'cmp':
         return 'cmp(%s,%s)' % (show(t[1]), show(t[2]))
     return str(t)[:60]
+
+
+# ---------------------------------------------------------------- term queries
+def subterms(t):
+    if isinstance(t, tuple):
+        yield t
+        for x in t:
+            if isinstance(x, tuple):
+                for y in subterms(x):
+                    yield y
+
+
+def _plain(name):
+    prev = None
+    while prev != name:
+        prev = name
+        name = re.sub(r'<[^<>]*>', '', name)
+    return re.sub(r':{3,}', '::', name)
+
+
+def is_call(t, pat):
+    """callee matches `pat` on its resolved path, either as printed or with generic arguments removed"""
+    t = deref(t)
+    return isinstance(t, tuple) and bool(t) and t[0] == 'call' and (re.search(pat, t[1]) is not None or re.search(pat, _plain(t[1])) is not None)
+
+
+def find_calls(t, pat):
+    return [s for s in subterms(t) if s and s[0] == 'call' and (re.search(pat, s[1]) or re.search(pat, _plain(s[1])))]
+
+
+def mentions(t, needle):
+    return any(s == needle for s in subterms(t))
